@@ -48,6 +48,7 @@ CONSTANTS
   NodeRecs <- MCNodeRecs
   NodeSeq <- MCNodeSeq
   Decl <- MCDecl
+  Tagged <- MCTagged
   Subs <- MCSubs
   Seed = %d
   NPacked = %d
@@ -71,6 +72,7 @@ class Tree:
     def __init__(self, t):
         self.nodes = {n["id"]: n for n in t["nodes"]}
         self.decl = {k: sorted(v) for k, v in t["decl"].items()}
+        self.tagged = {k: unjson(v) for k, v in t["tagged"].items()}
         self.subs = {k: sorted(unjson(v) or []) for k, v in t["subs"].items()}
         self.unchecked = set(t["unchecked"])
         self.nodeseq = t["nodeseq"]
@@ -107,7 +109,9 @@ class Tree:
 def tree_to_data(v):
     """tagged tree of template-data -> python value"""
     if v["t"] == "s":
-        return False if v["v"] == "#false" else True if v["v"] == "#true" else v["v"]
+        x = v["v"]
+        return False if x == "#false" else True if x == "#true" else 0 if x == "#zero" else "" if x == "#empty" else \
+            ["l", x[6:]] if x.startswith("#list:") else x
     return {k: tree_to_data(x) for k, x in unjson(v["kv"]).items()}
 
 
@@ -126,7 +130,7 @@ def tree_to_replace(v):
 
 def regex_of(letters):
     letters = sorted(unjson(letters) or [])
-    return "^(" + "|".join(letters) + ")" if letters else "^(ZZZ)"
+    return "^(" + "|".join(letters) + ")" if letters else ""      # the explicit empty string
 
 
 def probes_dir(W, profile):
@@ -156,6 +160,8 @@ def conc(W, param, v, profile):
         return regex_of(v)
     if param == "exclude-subpkg-regex":
         return [f"/{s}$" for s in (unjson(v) or [])]
+    if param == "build-tags":
+        return "tag_" + v
     if param == "template-data":
         return tree_to_build_tags(v) if profile == "template" else tree_to_data(v)
     if param == "replace-type":
@@ -183,7 +189,7 @@ def profile_of(case):
     return "mock"
 
 
-def build_config(T, W, case):
+def build_config(T, W, case, spell=0):
     cfg = {n: unjson(v) for n, v in case["cfg"].items()}
     prof = profile_of(case)
 
@@ -216,11 +222,32 @@ def build_config(T, W, case):
     conf["packages"] = pk
     env = {}
     for p, v in level("env").items():
-        env["MOCKERY_" + p.upper().replace("-", "_")] = ("true" if v else "false") if isinstance(v, bool) else str(v)
+        # booleans in the spellings the documentation uses (True / true / TRUE)
+        env["MOCKERY_" + p.upper().replace("-", "_")] = \
+            (("true", "True", "TRUE") if v else ("false", "False", "FALSE"))[spell % 3] if isinstance(v, bool) else str(v)
     args = []
     for p, v in level("flag").items():
         args += ["--" + p, str(v)]
     return conf, env, args
+
+
+def config_text(conf, idx):
+    """the config file: JSON (is YAML) for even worlds; for odd worlds block-style YAML in which one package's settings
+    live under the documented top-level `_anchors` key and are referenced by a YAML alias, next to an unused anchor
+    whose content (dir, all, template-data ...) must not have any effect"""
+    if idx % 2 == 0:
+        return json.dumps(conf, indent=1)
+    import yaml
+    c = dict(conf)
+    c["packages"] = dict(conf["packages"])
+    anchors = {"unused": {"dir": "out/anchor", "all": True, "recursive": True, "template-data": {"k": "anchor", "nest": {"x": "anchor"}},
+                          "exclude-subpkg-regex": ["."], "force-file-write": True}}
+    for path, ent in sorted(c["packages"].items()):
+        if isinstance(ent, dict) and ent.get("config"):
+            anchors["shared"] = ent["config"]          # the same object twice: PyYAML writes &id001 / *id001
+            break
+    c = {"_anchors": anchors, **c}
+    return yaml.safe_dump(c, default_flow_style=False, sort_keys=False, width=1000)
 
 
 def go_sources(T):
@@ -229,9 +256,15 @@ def go_sources(T):
     files["ty/ty.go"] = "package ty\n\ntype T0 struct{}\ntype Ur struct{}\ntype Up struct{}\ntype Ui struct{}\ntype Ue struct{}\n" + rtypes
     files["ty2/ty2.go"] = "package ty2\n\ntype V0 struct{}\n"
     for g, letters in T.decl.items():
-        src = [f"package {g}", "", f'import (\n\t"{MOD}/ty"\n\t"{MOD}/ty2"\n)', ""]
+        head = [f"package {g}", "", f'import (\n\t"{MOD}/ty"\n\t"{MOD}/ty2"\n)', ""]
+        src = list(head)
         for L in sorted(letters, key=lambda x: (x != "N", x)):       # N is declared (and processed) first
             nm = T.iface(g, L)
+            if L in T.tagged.get(g, {}):                               # declared only under a build tag
+                tag = "tag_" + T.tagged[g][L]
+                files[f"{T.pkg_dir(g)}/{g}_{tag}.go"] = f"//go:build {tag}\n\n" + "\n".join(head) + \
+                    f"\ntype {nm} interface {{ M{nm}(a ty.T0, b ty.Ur, c ty.Up, d ty.Ui, e ty.Ue, f ty2.V0) ty.T0; V{nm}(xs ...string) }}\n"
+                continue
             src.append(f"type {nm} interface {{ M{nm}(a ty.T0, b ty.Ur, c ty.Up, d ty.Ui, e ty.Ue, f ty2.V0) ty.T0; V{nm}(xs ...string) }}")
         files[f"{T.pkg_dir(g)}/{g}.go"] = "\n".join(src) + "\n"
     return files
@@ -286,10 +319,10 @@ class Instance:
     def __init__(self, w, W, poison, reject=None):
         self.w, self.W, self.T = w, W, w.T
         T = w.T
-        self.conf, self.env, self.args = build_config(T, W, w.case)
+        self.conf, self.env, self.args = build_config(T, W, w.case, w.idx)
         self.mocks = [expected_mock(T, W, m, w.profile) for m in w.case["mocks"]]
         self.mocks.sort(key=lambda m: (m["iface"], m["from"]))
-        files = {"go.mod": GOMOD, ".mockery.yml": json.dumps(self.conf, indent=1)}
+        files = {"go.mod": GOMOD, ".mockery.yml": config_text(self.conf, w.idx)}
         files.update(GO_SOURCES[id(T)])
         if w.profile in ("schema", "template"):
             for n in T.nodeseq:
@@ -527,7 +560,8 @@ def focus_of(w):
 
 def selection_param(w):
     d = w.case["desc"]
-    if d["fam"] == "chain" and d["param"] in ("all", "include-interface-regex", "exclude-interface-regex", "recursive", "exclude-subpkg-regex"):
+    if d["fam"] == "chain" and d["param"] in ("all", "include-interface-regex", "exclude-interface-regex", "recursive", "exclude-subpkg-regex",
+                                             "build-tags"):
         return d["param"]
     return "selection"
 
@@ -1018,12 +1052,12 @@ def vacuity(T, cases, stats):
     need = {"dir", "filename", "pkgname", "structname", "template-data", "replace-type", "template", "template-schema",
             "require-template-schema-exists", "formatter", "force-file-write", "all", "include-interface-regex",
             "exclude-interface-regex", "recursive", "exclude-subpkg-regex", "log-level", "template-data@matryer",
-            "template-data@testify"}
+            "template-data@testify", "build-tags"}
     have = {c["desc"]["param"] for c in chain}
     if not need <= have:
         raise MachineryError(f"vacuous: no chain world for {sorted(need - have)}")
     # every level of the target chain (and the default) is the winning one for some world of every scalar parameter
-    for p in sorted(need - {"template-data", "replace-type", "log-level", "template-data@matryer", "template-data@testify", "all", "include-interface-regex", "exclude-interface-regex",
+    for p in sorted(need - {"template-data", "replace-type", "log-level", "template-data@matryer", "template-data@testify", "build-tags", "all", "include-interface-regex", "exclude-interface-regex",
                             "recursive", "exclude-subpkg-regex"}):
         srcs = {m["src"][p] for c in chain if c["desc"]["param"] == p for m in c["mocks"] if m["from"] == "p1A1"}
         if not {"", "env", "root", "p1", "p1A", "p1A1"} <= srcs:
